@@ -3,7 +3,7 @@ UNIT = dict(
     uses=["use std::sync::Arc;"],
     prelude=["start_opaque.rs"],
     rules=["startmisc"],
-    inline_helpers=False,
+    inline_containers=["ShardedWriteBuffer"],
     forbid=[r"\.\s*iter\s*\(\s*\)", r"into_iter", r"step_by", r"thread\s*::", r"get_mut"],
     lifts={
         "WriteBuffer::start_workers": [dict(
